@@ -18,7 +18,9 @@ impl Function {
 // (sorted id tuple, coefficient) pairs; each id tuple is sorted and uses only ids of the function
 #[verifier::external_body]
 pub fn fn_terms(f: &Function) -> (r: Vec<(SortedIds, F64)>)
-    ensures forall|j: int| 0 <= j < r.len() ==> ids_sorted((#[trigger] r[j]).0.0@) && forall|t: int| 0 <= t < r[j].0.0.len() ==> fn_used(*f).contains(r[j].0.0[t])
+    ensures r@ == fterms(*f),   // the list is a function of the message; its terms sum to the polynomial (axiom ax_fterms_sum in spec/qubo_spec.rs)
+        fn_fin(*f) ==> ft_fin(r@),
+        forall|j: int| 0 <= j < r.len() ==> ids_sorted((#[trigger] r[j]).0.0@) && forall|t: int| 0 <= t < r[j].0.0.len() ==> fn_used(*f).contains(r[j].0.0[t])
 { unimplemented!() }
 impl BinaryIdPair {
     // TryFrom<SortedIds> for BinaryIdPair -> TryFrom<Vec<u64>> (slice patterns: outside Verus; bounded Kani stand-in in the thorough tier)
@@ -55,7 +57,10 @@ def as_pubo_format():
         r is Err ==> (self.constraints.len() > 0 || self.sense == 2 || exists|k: u64| #![trigger fn_used(ofun(*self)).contains(k)] fn_used(ofun(*self)).contains(k) && !is_binary_id(self.decision_variables@, k)),
         // no stored coefficient is (numerically) zero; keys are sets of binary ids of the objective
         r is Ok ==> forall|key: BinaryIds| #[trigger] r->Ok_0@.contains_key(key) ==> !xr_lt(xr_abs(r->Ok_0@[key]@), XR::Fin(eps_real()))
-            && forall|k: u64| #[trigger] key.0@.contains(k) ==> fn_used(ofun(*self)).contains(k),''',
+            && forall|k: u64| #[trigger] key.0@.contains(k) ==> fn_used(ofun(*self)).contains(k),
+        // the dictionary IS the specified accumulation of the objective's terms (skip |c| <= EPSILON, key = set of the ids, accumulate, remove an entry whose sum became
+        // numerically zero); lemma_pubo_value: sum_S c_S prod_{i in S} x_i = objective(x) on every 0/1 assignment minus the explicit remainder prem
+        r is Ok && fn_fin(ofun(*self)) ==> pmap_matches(r->Ok_0@, pacc(fterms(ofun(*self)), fterms(ofun(*self)).len() as int)),''',
                 rsubs=[(r'self\.objective\(\)\.used_decision_variable_ids\(\)\.is_subset\(&self\.binary_ids\(\)\)', 'btreeset_is_subset(&self.objective().used_decision_variable_ids(), &self.binary_ids())', 1),
                        (r'in self\.objective\(\)\.into_iter\(\) \{', 'in fn_terms(&self.objective()) {', 1),
                        (r'out\.entry\(key\.vclone\(\)\)\.and_modify\(\|v\| \*v \+= c\)\.or_insert\(c\)', 'btreemap_add_or_insert(&mut out, key.vclone(), c)', 1),
@@ -63,7 +68,11 @@ def as_pubo_format():
                 loops=[dict(kind='for', it='it_1', rebind='(__e.0.vclone(), __e.1)', body_proof=' proof { assert(*__e == __h1[it_1.index@ as int]); }', inv='''invariant
                 forall|j: int| 0 <= j < __h1.len() ==> ids_sorted((#[trigger] __h1[j]).0.0@) && forall|t: int| 0 <= t < __h1[j].0.0.len() ==> fn_used(ofun(*self)).contains(__h1[j].0.0[t]),
                 forall|key: BinaryIds| #[trigger] out@.contains_key(key) ==> !xr_lt(xr_abs(out@[key]@), XR::Fin(eps_real()))
-                    && forall|k: u64| #[trigger] key.0@.contains(k) ==> fn_used(ofun(*self)).contains(k),''')])
+                    && forall|k: u64| #[trigger] key.0@.contains(k) ==> fn_used(ofun(*self)).contains(k),
+                __h1@ == fterms(ofun(*self)), fn_fin(ofun(*self)) ==> ft_fin(__h1@),
+                fn_fin(ofun(*self)) ==> pmap_matches(out@, pacc(__h1@, it_1.index@ as int)),''')],
+                proofs=[(('after', r'let key = BinaryIds::from\(ids\);'), '''
+                proof { broadcast use ax_bkey, ax_binary_ids_ext; assert(key.0@ == bkey(__h1@[it_1.index@ as int].0.0@).0@); assert(key == bkey(__h1@[it_1.index@ as int].0.0@)); }''')])
 
 
 def as_qubo_format():
@@ -74,7 +83,11 @@ def as_qubo_format():
 ''' + REFUSE + '''
         // keys are canonical pairs i <= j over ids of the objective, no stored coefficient is (numerically) zero
         r is Ok ==> forall|key: BinaryIdPair| #[trigger] r->Ok_0.0@.contains_key(key) ==> key.0 <= key.1 && !xr_lt(xr_abs(r->Ok_0.0@[key]@), XR::Fin(eps_real()))
-            && fn_used(ofun(*self)).contains(key.0) && fn_used(ofun(*self)).contains(key.1),''',
+            && fn_used(ofun(*self)).contains(key.0) && fn_used(ofun(*self)).contains(key.1),
+        // the matrix and the offset ARE the specified accumulation of the objective's terms (skip |c| <= EPSILON, key (first id, last id), accumulate, remove an entry
+        // whose sum became numerically zero); lemma_qubo_value: sum Q_ij x_i x_j + offset = objective(x) on every 0/1 assignment minus the explicit remainder qrem
+        r is Ok && fn_fin(ofun(*self)) ==> ({ let t = fterms(ofun(*self)); let n = t.len() as int;
+            q_terms_ok(t, n) && qmap_matches(r->Ok_0.0@, qacc(t, n)) && r->Ok_0.1@ == XR::Fin(qconst(t, n)) }),''',
                 rsubs=[(r'self\.objective\(\)\.used_decision_variable_ids\(\)\.is_subset\(&self\.binary_ids\(\)\)', 'btreeset_is_subset(&self.objective().used_decision_variable_ids(), &self.binary_ids())', 1),
                        (r'in self\.objective\(\)\.into_iter\(\) \{', 'in fn_terms(&self.objective()) {', 1),
                        (r'quad\.entry\(key\)\.and_modify\(\|v\| \*v \+= c\)\.or_insert\(c\)', 'btreemap_add_or_insert(&mut quad, key, c)', 1),
@@ -85,4 +98,13 @@ def as_qubo_format():
                 forall|j: int| 0 <= j < __h1.len() ==> ids_sorted((#[trigger] __h1[j]).0.0@) && forall|t: int| 0 <= t < __h1[j].0.0.len() ==> fn_used(ofun(*self)).contains(__h1[j].0.0[t]),
                 forall|key: BinaryIdPair| #[trigger] quad@.contains_key(key) ==> key.0 <= key.1 && !xr_lt(xr_abs(quad@[key]@), XR::Fin(eps_real()))
                     && fn_used(ofun(*self)).contains(key.0) && fn_used(ofun(*self)).contains(key.1),
-            decreases __h1.len() - __i1''')])
+                __h1@ == fterms(ofun(*self)), fn_fin(ofun(*self)) ==> ft_fin(__h1@),
+                fn_fin(ofun(*self)) ==> q_terms_ok(__h1@, __i1 as int) && qmap_matches(quad@, qacc(__h1@, __i1 as int)) && constant@ == XR::Fin(qconst(__h1@, __i1 as int)),
+            decreases __h1.len() - __i1''')],
+                proofs=[(('after', r'let key = BinaryIdPair::try_from_sorted\(ids\)\?;'), '''
+                proof { let s = __h1@[__i1 - 1].0.0@;
+                    // ids sorted, every id is one of the two key ids and both occur: the key is (first id, last id)
+                    let t0 = choose|t: int| 0 <= t < s.len() && s[t] == key.0; let t1 = choose|t: int| 0 <= t < s.len() && s[t] == key.1;
+                    assert(s[0] <= s[t0]); assert(s[t1] <= s[s.len() - 1]);
+                    assert(s[0] == key.0 || s[0] == key.1); assert(s[s.len() - 1] == key.0 || s[s.len() - 1] == key.1);
+                    assert(key == pair_of(s)); assert(two_vars(s)); }''')])
